@@ -585,6 +585,8 @@ def _propagate_module_constants(tree: ast.Module) -> int:
     for nm, ss in binds.items():
         if len(ss) == 1 and isinstance(ss[0], ast.Assign) and len(ss[0].targets) == 1 and isinstance(ss[0].targets[0], ast.Name) and literal(ss[0].value):
             consts[nm] = ss[0].value
+        elif len(ss) == 1 and isinstance(ss[0], ast.AnnAssign) and isinstance(ss[0].target, ast.Name) and ss[0].value is not None and literal(ss[0].value):
+            consts[nm] = ss[0].value
     for n in ast.walk(tree):
         if isinstance(n, (ast.Global, ast.Nonlocal)):
             for nm in n.names:
@@ -592,6 +594,32 @@ def _propagate_module_constants(tree: ast.Module) -> int:
     if not consts:
         return 0
     count = 0
+    # module-level statements after the definition (option tables, derived constants) read the literal as well
+    seen_defs = set()
+    for s in tree.body:
+        if isinstance(s, (ast.FunctionDef, ast.AsyncFunctionDef, ast.ClassDef)):
+            continue
+        defined_here = {t.id for t in (s.targets if isinstance(s, ast.Assign) else [s.target] if isinstance(s, ast.AnnAssign) else []) if isinstance(t, ast.Name)}
+        avail = seen_defs - defined_here
+
+        class TM(ast.NodeTransformer):
+            def visit_Name(self, n):
+                nonlocal count
+                if isinstance(n.ctx, ast.Load) and n.id in consts and n.id in avail:
+                    count += 1
+                    return ast.copy_location(_copy.deepcopy(consts[n.id]), n)
+                return n
+
+            def visit_Lambda(self, n):
+                return n
+        if avail:
+            if isinstance(s, ast.Assign):
+                s.value = TM().visit(s.value)
+            elif isinstance(s, ast.AnnAssign) and s.value is not None:
+                s.value = TM().visit(s.value)
+            elif isinstance(s, ast.Expr):
+                s.value = TM().visit(s.value)
+        seen_defs |= {nm for nm in defined_here if nm in consts}
     for fn in [n for n in ast.walk(tree) if isinstance(n, (ast.FunctionDef, ast.AsyncFunctionDef))]:
         local = {x.id for x in ast.walk(fn) if isinstance(x, ast.Name) and isinstance(x.ctx, (ast.Store, ast.Del))}
         a_ = fn.args
@@ -883,6 +911,181 @@ def _eliminate_aliases(tree: ast.AST):
             for n in ast.walk(fn):
                 if isinstance(n, ast.Name) and n.id == a:
                     n.id = b
+
+
+def package_signatures(trees) -> Dict[str, List[str]]:
+    """method / function name -> positional parameter names (receiver dropped), for the names whose every definition in the package has the
+    same parameter list (so a call by that name binds its keywords the same way whichever definition it reaches)"""
+    sigs: Dict[str, Optional[List[str]]] = {}
+    for t in trees:
+        for cls in [None] + [c for c in ast.walk(t) if isinstance(c, ast.ClassDef)]:
+            body = t.body if cls is None else cls.body
+            for s in body:
+                if not isinstance(s, ast.FunctionDef):
+                    continue
+                a = s.args
+                decos = {ast.unparse(d).split(".")[-1].split("(")[0] for d in s.decorator_list}
+                if a.vararg or a.kwarg or a.posonlyargs or "property" in decos or "setter" in decos or "cached_property" in decos:
+                    sigs[s.name] = None
+                    continue
+                ps = [x.arg for x in a.args]
+                if cls is not None and "staticmethod" not in decos and ps:
+                    ps = ps[1:]
+                if s.name in sigs and sigs[s.name] != ps:
+                    sigs[s.name] = None
+                else:
+                    sigs.setdefault(s.name, ps)
+    return {k: v for k, v in sigs.items() if v}
+
+
+def _keywords_to_positional(tree: ast.AST, sigs: Dict[str, List[str]]):
+    """`obj.m(a, c=z, b=y)` -> `obj.m(a, y, z)` for a method / function name the package defines with one parameter list: keyword arguments
+    are moved into their positional slots as far as that leaves no gap (evaluation order of the argument expressions is kept only when the
+    keywords already come in parameter order - otherwise the call is left alone).  By name: constructors (`__init__` through the class name)
+    and `super().__init__` are not touched here (bound_args handles them)."""
+    for c in [c for c in ast.walk(tree) if isinstance(c, ast.Call)]:
+        if not c.keywords or any(k.arg is None for k in c.keywords) or any(isinstance(a, ast.Starred) for a in c.args):
+            continue
+        name = c.func.attr if isinstance(c.func, ast.Attribute) else (c.func.id if isinstance(c.func, ast.Name) else None)
+        ps = sigs.get(name) if name and not name.startswith("__") else None
+        if not ps or len(c.args) > len(ps):
+            continue
+        kws = [k.arg for k in c.keywords]
+        if any(k not in ps for k in kws) or any(k in ps[:len(c.args)] for k in kws):
+            continue
+        # keywords must already be in parameter order (argument expressions keep their evaluation order)
+        if [ps.index(k) for k in kws] != sorted(ps.index(k) for k in kws):
+            continue
+        moved = 0
+        while c.keywords and len(c.args) < len(ps) and c.keywords[0].arg == ps[len(c.args)]:
+            c.args.append(c.keywords.pop(0).value)
+            moved += 1
+
+
+def _flag_loops_to_for_else(tree: ast.AST):
+    """`flag = <b>` immediately before a for / while loop without else, every `break` of that loop immediately preceded by `flag = <not b>` (and
+    that assignment nowhere else), `if flag: S` (b True) / `if not flag: S` (b False) without else immediately after the loop, flag read nowhere
+    else in the function: flag says "the loop ended without break", which is what the loop's else clause tests.  Rewritten to `loop ... else: S`."""
+    for fn in [n for n in ast.walk(tree) if isinstance(n, (ast.FunctionDef, ast.AsyncFunctionDef))]:
+        changed = True
+        while changed:
+            changed = False
+            for node in ast.walk(fn):
+                for fld in ("body", "orelse", "finalbody"):
+                    blk = getattr(node, fld, None)
+                    if not isinstance(blk, list) or len(blk) < 3 or not isinstance(blk[0], ast.stmt):
+                        continue
+                    for k in range(len(blk) - 2):
+                        init, loop, after = blk[k], blk[k + 1], blk[k + 2]
+                        if not (isinstance(init, ast.Assign) and len(init.targets) == 1 and isinstance(init.targets[0], ast.Name) and
+                                isinstance(init.value, ast.Constant) and isinstance(init.value.value, bool) and
+                                isinstance(loop, (ast.For, ast.While)) and not loop.orelse and isinstance(after, ast.If) and not after.orelse):
+                            continue
+                        flag, b = init.targets[0].id, init.value.value
+                        t = after.test
+                        if not ((b and isinstance(t, ast.Name) and t.id == flag) or
+                                (not b and isinstance(t, ast.UnaryOp) and isinstance(t.op, ast.Not) and isinstance(t.operand, ast.Name) and t.operand.id == flag)):
+                            continue
+                        # every other occurrence of the flag in the function is a `flag = <not b>` inside this loop
+                        occ = [x for x in ast.walk(fn) if isinstance(x, ast.Name) and x.id == flag]
+                        inside = {id(x) for x in ast.walk(loop)}
+                        allowed = {id(init.targets[0]), id(t if b else t.operand)}
+                        sets = []
+
+                        def scan(stmts, owner_ok):
+                            # owner_ok: a break found here belongs to `loop`
+                            ok = True
+                            for i, st in enumerate(stmts):
+                                if isinstance(st, ast.Break) and owner_ok:
+                                    prev = stmts[i - 1] if i > 0 else None
+                                    if not (isinstance(prev, ast.Assign) and len(prev.targets) == 1 and isinstance(prev.targets[0], ast.Name) and prev.targets[0].id == flag and
+                                            isinstance(prev.value, ast.Constant) and prev.value.value is (not b)):
+                                        ok = False
+                                    else:
+                                        sets.append(prev)
+                                if isinstance(st, (ast.For, ast.While)):
+                                    ok = scan(st.body, False) and scan(st.orelse, owner_ok) and ok
+                                elif isinstance(st, (ast.FunctionDef, ast.AsyncFunctionDef, ast.ClassDef)):
+                                    continue
+                                else:
+                                    for f2 in ("body", "orelse", "finalbody"):
+                                        sub = getattr(st, f2, None)
+                                        if isinstance(sub, list) and sub and isinstance(sub[0], ast.stmt):
+                                            ok = scan(sub, owner_ok) and ok
+                                    for h in getattr(st, "handlers", []) or []:
+                                        ok = scan(h.body, owner_ok) and ok
+                            return ok
+                        if not scan(loop.body, True):
+                            continue
+                        allowed |= {id(s.targets[0]) for s in sets}
+                        if any(id(x) not in allowed for x in occ):
+                            continue
+                        for s in sets:
+                            for n2 in ast.walk(loop):
+                                for f2 in ("body", "orelse", "finalbody"):
+                                    sub = getattr(n2, f2, None)
+                                    if isinstance(sub, list) and s in sub:
+                                        sub.remove(s)
+                                for h in getattr(n2, "handlers", []) or []:
+                                    if s in h.body:
+                                        h.body.remove(s)
+                        loop.orelse = after.body
+                        del blk[k + 2]
+                        del blk[k]
+                        changed = True
+                        break
+                    if changed:
+                        break
+                if changed:
+                    break
+
+
+def _function_refs_to_lambdas(tree: ast.AST):
+    """a private module-level function that is one `return <expression>` over its positional parameters (no defaults, no decorator, bound once in
+    the module) and is handed to a call *as an argument* (`filter(_pred, xs)`, `sorted(xs, key=_key)`) is the lambda with that body: the
+    reference is replaced by the lambda (the definition stays).  Names the body reads are module-level names either way."""
+    import copy as _copy
+    if not isinstance(tree, ast.Module):
+        return
+    binds: Dict[str, int] = {}
+    for s in tree.body:
+        for n in ([s] if isinstance(s, (ast.FunctionDef, ast.AsyncFunctionDef, ast.ClassDef)) else ast.walk(s)):
+            if isinstance(n, (ast.FunctionDef, ast.ClassDef)) and n is s:
+                binds[n.name] = binds.get(n.name, 0) + 1
+            elif isinstance(n, ast.Name) and isinstance(n.ctx, ast.Store):
+                binds[n.id] = binds.get(n.id, 0) + 1
+    simple: Dict[str, ast.Lambda] = {}
+    for s in tree.body:
+        if not (isinstance(s, ast.FunctionDef) and s.name.startswith("_") and not s.name.startswith("__") and not s.decorator_list and binds.get(s.name) == 1):
+            continue
+        a = s.args
+        if a.vararg or a.kwarg or a.kwonlyargs or a.defaults or a.kw_defaults or a.posonlyargs:
+            continue
+        body = [x for x in s.body if not (isinstance(x, ast.Expr) and isinstance(x.value, ast.Constant))]
+        if len(body) != 1 or not isinstance(body[0], ast.Return) or body[0].value is None:
+            continue
+        if any(isinstance(x, (ast.Yield, ast.YieldFrom, ast.Await, ast.NamedExpr, ast.Lambda)) for x in ast.walk(body[0].value)):
+            continue
+        simple[s.name] = ast.Lambda(args=ast.arguments(posonlyargs=[], args=[ast.arg(arg=p.arg) for p in a.args], vararg=None, kwonlyargs=[], kw_defaults=[],
+                                                       kwarg=None, defaults=[]), body=body[0].value)
+    if not simple:
+        return
+    for fn in [n for n in ast.walk(tree) if isinstance(n, (ast.FunctionDef, ast.AsyncFunctionDef))]:
+        local = {x.id for x in ast.walk(fn) if isinstance(x, ast.Name) and isinstance(x.ctx, (ast.Store, ast.Del))} | {p.arg for p in fn.args.args + fn.args.kwonlyargs}
+        for c in [c for c in ast.walk(fn) if isinstance(c, ast.Call)]:
+            # only where the callable is applied element-wise by a builtin higher-order function (a job handed to an executor, a callback stored
+            # somewhere keep their identity: rules reason about *which function* runs there)
+            fname = dotted(c.func) or (c.func.attr if isinstance(c.func, ast.Attribute) else "")
+            first_arg = fname in ("filter", "map", "functools.reduce", "reduce", "itertools.filterfalse", "itertools.takewhile", "itertools.dropwhile", "itertools.starmap")
+            key_kw = fname in ("sorted", "min", "max", "itertools.groupby", "groupby", "SortedSet", "SortedList", "SortedDict") or \
+                (isinstance(c.func, ast.Attribute) and c.func.attr == "sort")
+            if first_arg and c.args and isinstance(c.args[0], ast.Name) and c.args[0].id in simple and c.args[0].id not in local and fn.name != c.args[0].id:
+                c.args[0] = ast.copy_location(_copy.deepcopy(simple[c.args[0].id]), c.args[0])
+            if key_kw:
+                for k in c.keywords:
+                    if k.arg == "key" and isinstance(k.value, ast.Name) and k.value.id in simple and k.value.id not in local and fn.name != k.value.id:
+                        k.value = ast.copy_location(_copy.deepcopy(simple[k.value.id]), k.value)
+    ast.fix_missing_locations(tree)
 
 
 def _coalesce_forwarded_temporaries(tree: ast.AST):
@@ -1665,7 +1868,8 @@ def _as_load(t: ast.AST) -> ast.AST:
     return t
 
 
-def normalise_tree(tree: ast.AST, computed: Set[str] = frozenset(), records: Optional[Dict[str, List[str]]] = None) -> int:
+def normalise_tree(tree: ast.AST, computed: Set[str] = frozenset(), records: Optional[Dict[str, List[str]]] = None,
+                   signatures: Optional[Dict[str, List[str]]] = None) -> int:
     """In-place canonicalisation applied to every module before any analysis, so that the rules do not depend on incidental syntax:
       * `x: T = v`  becomes  `x = v`  (the annotation is kept on the node as `.ann` for type inference);
       * inert statements are dropped inside functions: docstrings, `pass`, logging calls whose arguments are effect-free.
@@ -1694,6 +1898,10 @@ def normalise_tree(tree: ast.AST, computed: Set[str] = frozenset(), records: Opt
     _hoist_package_imports(tree)
     _format_calls_to_fstrings(tree)
     _simplify_not(tree)
+    _function_refs_to_lambdas(tree)
+    if signatures:
+        _keywords_to_positional(tree, signatures)
+    _flag_loops_to_for_else(tree)
     _canonical_comparisons(tree)
     _canonical_statements(tree)
     _split_live_ranges(tree)
@@ -1759,8 +1967,9 @@ class Model:
             self.inlined += [f"{m.relpath.split('/')[-1]}: {l}" for l in log]
         self.helpers_dropped = _inline.drop_unreferenced_helpers([m.tree for m in self.modules.values()])
         recs = record_classes([m.tree for m in self.modules.values()])
+        sigs_ = package_signatures([m.tree for m in self.modules.values()])
         for m in self.modules.values():
-            self.inert_removed = getattr(self, "inert_removed", 0) + normalise_tree(m.tree, computed, recs)
+            self.inert_removed = getattr(self, "inert_removed", 0) + normalise_tree(m.tree, computed, recs, sigs_)
         for m in self.modules.values():
             self._collect_aliases(m)
         for m in self.modules.values():
@@ -1818,8 +2027,8 @@ class Model:
             decos = self._decos(m, node)
             kind = "function" if cls is None or parent is not None else "method"
             if cls is not None and parent is None:
-                if "property" in decos:
-                    kind = "property"
+                if "property" in decos or any(d.split(".")[-1] in ("cached_property", "lazy_property", "lazyproperty") for d in decos):
+                    kind = "property"          # read like an attribute: `obj.x` runs the body (once, for the caching kinds: R-DECORATORS reports those)
                 elif any(d.endswith(".setter") for d in decos):
                     kind = "setter"
                 elif "staticmethod" in decos:
